@@ -324,6 +324,8 @@ def named(R, b, v, bs, sk, nf, sp, fields, container, variant_ident):
             oth = canon(v, fb_sites[0].payload)
             if not (oth[0] == "call" and oth[1] == ucs[0]["bb"]):
                 R.bad("C09.FALLBACK", body, "what is handed to the error type is not what the user's function returned%s" % where, b.span)
+            if fb_sites[0].handling != "switched" or (nf.acc is not None and fb_sites[0].acc != nf.acc):
+                R.bad("C09.FALLBACK", body, "the unknown-key report is not accumulated like the other reports (earlier reports of this container are forgotten)%s" % where, b.span)
     # ----- C11: from / try_from / field-level error type per arm
     for a, f in zip(nf.arms, live):
         arm_conv(R, b, v, bs, sk, nf, a, f, container, where)
